@@ -79,6 +79,9 @@ def cases_for(ctx):
     cases.append({'behaviours': [E, 'exit0', E, D], 'recycle': 3, 'consume': 'full'})
     cases.append({'behaviours': [E, 'die_holding_event_lock', E, E, D], 'recycle': 5, 'consume': 'full'})
     cases.append({'behaviours': [E, E, D, E, E], 'recycle': 2, 'consume': 'full', 'second_run_while_first_suspended': True})
+    # the timeout given as a decimal / a fraction (settings parsed from a file)
+    cases.append({'behaviours': [E, 'hang', E, E, E], 'recycle': 2, 'timeout': 1.0, 'timeout_type': 'decimal', 'consume': 'full'})
+    cases.append({'behaviours': ['hang', E], 'recycle': 3, 'timeout': 1.0, 'timeout_type': 'fraction', 'consume': 'full'})
     # a timeout of zero: every replay that does not answer at once is given up at once (not "no timeout")
     cases.append({'behaviours': ['hang', 'hang'], 'recycle': 3, 'timeout': 0, 'consume': 'full'})
     # the ids come from a generator of the caller whose clean-up fails / that swallows GeneratorExit; the run is abandoned
